@@ -244,6 +244,12 @@ func e2ePrefixString(fam wire.Family, p wire.Prefix) (string, error) {
 // e2eDecodeRx decodes every UPDATE the speaker has received so far, from the raw octets, with the
 // independent reader. problems lists framing errors (each is a violation of its own for the caller).
 func e2eDecodeRx(sp *simSpeaker) (ups []e2eRxUpdate, problems []string) {
+	return e2eDecodeRxFrom(sp, 0)
+}
+
+// e2eDecodeRxFrom decodes the messages from index `from` of the rx log on: the log runs across the sessions of
+// a speaker while the wire grammar (ADD-PATH, Extended Message) is the one negotiated for the CURRENT session.
+func e2eDecodeRxFrom(sp *simSpeaker, from int) (ups []e2eRxUpdate, problems []string) {
 	opt := e2eWireOpts(sp)
 	sp.mu.Lock()
 	rx := append([]simRxMsg{}, sp.rx...)
@@ -255,6 +261,9 @@ func e2eDecodeRx(sp *simSpeaker) (ups []e2eRxUpdate, problems []string) {
 	}
 	sp.mu.Unlock()
 	for i, m := range rx {
+		if i < from {
+			continue
+		}
 		typ, body, err := wire.ParseHeader(m.Raw)
 		if err != nil {
 			problems = append(problems, fmt.Sprintf("message %d: %v", i, err))
